@@ -25,7 +25,7 @@ from ..tables import routing as T
 from ..tables import scheduling as TS
 from .C01 import check_literals, mask_root
 
-FLOOR = 82
+FLOOR = 92
 EXPLANATION = (
     "Static analysis of FJSPEnv/JSSPEnv (_get_job_machine_availability, get_action_mask, _translate_action, _make_step, "
     "_transit_to_next_time, _step), FFSPEnv (_step, _update_step_state), SMTWTPEnv and the L2D decoder: mask literal "
